@@ -223,9 +223,18 @@ func runC20(c *Ctx) {
 		for _, p := range picked {
 			hasNil = hasNil || p == nil
 		}
-		if !hasNil {
-			c.Law(unwrapMapIsPartition(b, picked), "C20/bundle-order", "a bundle unwraps to its entries' resources in order (UnwrapMap: the same resources by type, each list in entry order)", fmt.Sprint(n, " entries"), "")
+		// (entries without a resource — a DELETE request entry, an outcome-only entry — have no type: the map holds the others)
+		var withResource []fhir.Resource
+		for _, p := range picked {
+			if p != nil {
+				withResource = append(withResource, p)
+			}
 		}
+		what := fmt.Sprint(n, " entries")
+		if hasNil {
+			what += ", some without a resource"
+		}
+		c.Law(unwrapMapIsPartition(b, withResource), "C20/bundle-order", "a bundle unwraps to its entries' resources in order (UnwrapMap: the same resources by type, each list in entry order)", what, "")
 	}
 	// several versions of one resource (a history bundle) and the same resource twice: every entry is kept
 	{
